@@ -18,7 +18,7 @@ type c05 struct{}
 func init() {
 	register(c05{})
 	expectedProbes["C05"] = []string{"target-in-root", "target-in-other-document", "target-at-http-url", "nested-pointer", "odd-name", "dangling-pointer", "dangling-document", "ill-typed-target",
-		"refused-document", "kind:schema", "kind:parameter", "kind:response", "kind:pathItem", "kind:items", "three-roots-agree", "nested-ref-not-followed"}
+		"refused-document", "kind:schema", "kind:parameter", "kind:response", "kind:pathItem", "kind:items", "three-roots-agree", "nested-ref-not-followed", "continue-on-error-set", "package-level-loader", "operation-response-target"}
 }
 
 func (c05) ID() string { return "C05" }
@@ -97,6 +97,18 @@ func collectTargets(w *model.World) []refCase {
 				out = append(out, refCase{"response", u, n.Ptr})
 			case model.KPathItem:
 				out = append(out, refCase{"pathItem", u, n.Ptr})
+				if _, isRef := model.RefOf(n.Val); !isRef {
+					_, pch := model.Split(model.KPathItem, n.Val)
+					for _, pc := range pch {
+						pn := model.ChildNode(n, pc)
+						switch pc.Kind {
+						case model.KResp:
+							out = append(out, refCase{"response", u, pn.Ptr})
+						case model.KParam:
+							out = append(out, refCase{"parameter", u, pn.Ptr})
+						}
+					}
+				}
 			}
 		}
 	}
@@ -160,6 +172,13 @@ func (c05) Gen(r *sim.RNG, tier string, idx int) *Scenario {
 			if strings.Contains(ref, "#/") {
 				ref += "/no/such/member"
 			}
+		case 5:
+			// an undeclared status code / parameter index next to a declared one
+			if i := strings.LastIndex(ref, "/responses/"); i > 0 && strings.Contains(ref, "/paths/") {
+				ref = ref[:i] + "/responses/" + []string{"404", "500", "0", "299"}[r.Intn(4)]
+			} else if i := strings.LastIndex(ref, "/parameters/"); i > 0 && strings.Contains(ref, "/paths/") {
+				ref = ref[:i] + "/parameters/" + []string{"7", "99"}[r.Intn(2)]
+			}
 		case 4:
 			if strings.Contains(ref, "#/") && t.Kind == "schema" {
 				// an optional member that is (most probably) absent
@@ -168,6 +187,8 @@ func (c05) Gen(r *sim.RNG, tier string, idx int) *Scenario {
 		}
 		entries := c05Entries[t.Kind]
 		op := Op{Entry: entries[r.Intn(len(entries))], Ref: ref, Ptr: "/" + t.Kind}
+		op.Opts = Opts{Continue: r.Bool(0.3), Skip: r.Bool(0.1), Absolute: r.Bool(0.1)} // resolution must not depend on expansion options
+		op.GlobalLoader = r.Bool(0.25)
 		sc.Ops = append(sc.Ops, op)
 	}
 	if r.Bool(0.3) {
@@ -253,6 +274,15 @@ func (c05) Run(sc *Scenario) *Verdict {
 			}
 		}
 		v.probe("kind:" + strings.TrimPrefix(op.Ptr, "/"))
+		if op.Opts.Continue {
+			v.probe("continue-on-error-set")
+		}
+		if op.GlobalLoader && withBase {
+			v.probe("package-level-loader")
+		}
+		if strings.Contains(op.Ref, "/responses/") && strings.Contains(op.Ref, "/paths/") {
+			v.probe("operation-response-target")
+		}
 		spell := "frag"
 		switch {
 		case strings.Contains(op.Ref, "://"):
